@@ -170,9 +170,9 @@ def rule_OR2_watcher(ctx, tier):
     else:
         rr.fail("hb:blob-origin", "decrypt input is `%s`, not the blob of the stored appointment" % og.show(blob)[:200], where=h.line_of(dec[0]))
     # Ok arm must reach handle_breach before the next iteration
-    ok_edges = switch_succ_with(ctx, h, "variant", "Ok", "cryptography::decrypt")
-    err_edges = switch_succ_with(ctx, h, "variant", "Err", "cryptography::decrypt")
-    rej_edges = switch_succ_with(ctx, h, "variant", "Rejected", "Responder::handle_breach")
+    ok_edges = switch_succ_with(ctx, h, "variant", "Ok", "cryptography::decrypt", exact=True)
+    err_edges = switch_succ_with(ctx, h, "variant", "Err", "cryptography::decrypt", exact=True)
+    rej_edges = switch_succ_with(ctx, h, "variant", "Rejected", "Responder::handle_breach", exact=True)
     fail = lambda bb: is_iter_next(h, bb)
     if not ok_edges or not err_edges or not rej_edges:
         rr.fail("hb:arms", "handle_breaches does not distinguish decrypt Ok/Err and handle_breach Rejected (%d/%d/%d)" % (len(ok_edges), len(err_edges), len(rej_edges)), where=h.span)
@@ -191,14 +191,17 @@ def rule_OR2_watcher(ctx, tier):
             rr.ok("hb:Rejected -> invalid list")
         else:
             rr.fail("hb:rejected-not-dropped", "an appointment whose penalty the node rejected is not put on the invalid list", where=h.line_of(sw))
-    # only those are pushed
+    # only those are pushed: within one iteration, every path to a push crosses a decrypt-Err edge or a Rejected edge
+    # (edge-cut form, so arms merged as `Err(_) | Ok(Rejected(_))` are judged path by path)
+    from .rulekit import reach_without_edges
+    iter_heads = [bb for bb in h.rpo() if is_iter_next(h, bb)]
+    cut = set(err_edges) | set(rej_edges)
     for p in pushes:
-        fs = facts_at(ctx, h, p)
-        good = variant_fact(ctx, h, p, "Err", "cryptography::decrypt") or variant_fact(ctx, h, p, "Rejected", "Responder::handle_breach")
-        if good:
-            rr.ok("hb:push guarded@%d" % p)
-        else:
+        starts = iter_heads or [0]
+        if any(reach_without_edges(h, st_, p, cut, stop=lambda x: is_iter_next(h, x)) for st_ in starts):
             rr.fail("hb:push-unguarded", "an appointment is put on the invalid (to be deleted) list on a path that is neither a decryption failure nor a rejection", where=h.line_of(p))
+        else:
+            rr.ok("hb:push guarded@%d" % h.orig(p))
     # every uuid of every breach is visited: no early exit from the loops other than exhaustion
     nexts = [bb for bb in h.rpo() if is_iter_next(h, bb)]
     if len(nexts) != 2:
@@ -213,7 +216,7 @@ def rule_OR2_watcher(ctx, tier):
                     continue
                 for succ, facts in ctx.pf.switch_facts(h, sw).items():
                     for f in facts:
-                        if f[0] == "variant" and f[2] == variant and f[1][0] in ("call", "ret") and f[1][-1 if f[1][0] == "call" else 3] == (h.id, nb):
+                        if f[0] == "variant" and f[2] == variant and f[1][0] in ("call", "ret") and f[1][-1 if f[1][0] == "call" else 3] == (h.id, h.orig(nb)):
                             out.append(succ)
             return out
         checks = [("outer-some", edge_succ(outer, "Some"), {inner}, lambda x: x == outer),
